@@ -1,13 +1,15 @@
 SPECIFICATION Spec
 CONSTANTS
-  Msgs = {"a", "b", "c"}
+  Msgs = {1, 2, 3}
   TL = 2
   ML = 1
   MaxRetries = 1
+  Late = FALSE
   Repaired = FALSE
   Prefetch = 0
   FinishMode = "taken"
 INVARIANT Conservation
+INVARIANT SlotsSound
 INVARIANT RunningBound
 INVARIANT StartedBound
 INVARIANT AtReturn
